@@ -1,35 +1,128 @@
-// c05.cpp — the sequential approximate entry points on the real code.
+// c05.cpp — the sequential approximate entry points on the real code (C05 / C06).
 //   X <alg> <D|I> <scale> <k> <graph>     alg = signed | fvs | iso
+//       prints   <PUB answer> DIR SPR <retained input ids> SPD <dropped input ids> ROOTS <..> EORD <..> <DIR answer>
+//       PUB answer = the public entry point approx_mcb_sva_<alg>;  DIR answer = the same two statements the entry point
+//       consists of (construct BaseApproxSpannerAlgorithm, call run) executed here on an object we keep, so that the
+//       oracles of ITS spanner can be read through the PARMCB_VERIF accessors: ROOTS = BFS root order of
+//       detail::spanning_forest on the spanner, EORD = rank of every spanner edge in std::set<Edge> (pointer) order.
+//       answer = THROW runtime_error EMITTED <n>   |   RET <w> N <n> CYC <len> <ids> ...
+//   J <D|I> <s> <graph>                   parmcb::dijkstra directly: DIST .. PRED ..
 // The emitted edge descriptors are looked up in the CALLER's graph after the call has returned (a descriptor that is not
 // an edge of the caller's graph prints as ?), so leaked internals are visible.
 #include "mcb_common.hpp"
 #include <parmcb/parmcb_approx_sva_signed.hpp>
 #include <parmcb/parmcb_approx_sva_trees.hpp>
 
+// BFS root order of detail::spanning_forest on an arbitrary graph (same recovery as mcb_common.hpp: recover_roots)
+template<class G> std::vector<size_t> roots_of(const G &g) {
+    typedef typename boost::graph_traits<G>::edge_descriptor Edge;
+    size_t n = boost::num_vertices(g);
+    std::vector<Edge> emitted;
+    parmcb::detail::spanning_forest(g, std::back_inserter(emitted));
+    std::vector<bool> seen(n, false); std::vector<size_t> roots;
+    for (auto &e : emitted) {
+        size_t s = boost::source(e, g), tg = boost::target(e, g);
+        if (!seen[s]) { roots.push_back(s); seen[s] = true; }
+        seen[tg] = true;
+    }
+    for (size_t v = 0; v < n; v++) roots.push_back(v);
+    return roots;
+}
+
+template<class G, class Exact, class WMap>
+void run_direct(GCase<G> &c, const WMap &wm, size_t k, int scale, std::ostream &out) {
+    typedef typename boost::graph_traits<G>::edge_descriptor Edge;
+    auto index_map = boost::get(boost::vertex_index, c.g);
+    parmcb::detail::BaseApproxSpannerAlgorithm<G, WMap, Exact, false> algo(c.g, wm, index_map, k);
+    const G &sp = algo.verif_spanner();
+    const auto &tr = algo.verif_edge_spanner_to_g();
+    std::vector<Edge> sedges;
+    for (auto ep = boost::edges(sp); ep.first != ep.second; ++ep.first) sedges.push_back(*ep.first);
+    out << " DIR SPR";
+    for (auto &se : sedges) { auto it = tr.find(se); out << " " << (it == tr.end() ? std::string("?") : std::to_string(c.id(it->second))); }
+    out << " SPD";
+    for (auto &e : algo.verif_non_spanner_edges()) out << " " << c.id(e);
+    out << " ROOTS";
+    for (auto r : roots_of(sp)) out << " " << r;
+    out << " EORD";
+    {
+        std::set<Edge> s(sedges.begin(), sedges.end());
+        std::vector<size_t> rank(sedges.size(), 0); size_t r = 0;
+        for (auto &e : s) { for (size_t i = 0; i < sedges.size(); i++) if (sedges[i] == e) rank[i] = r; r++; }
+        for (auto x : rank) out << " " << x;
+    }
+    std::list<std::list<Edge>> cycles;
+    typename boost::property_traits<WMap>::value_type ret;
+    try {
+        ret = algo.run(std::back_inserter(cycles));
+    } catch (const std::runtime_error &e) {
+        out << " THROW runtime_error EMITTED " << cycles.size(); return;
+    }
+    out << " RET " << exact_weight(ret, scale);
+    print_cycles(out, c, cycles);
+}
+
 template<class G> void run_alg(const std::string &alg, Toks &t, int scale, std::ostream &out) {
     typedef typename boost::graph_traits<G>::edge_descriptor Edge;
+    typedef std::back_insert_iterator<std::list<std::list<Edge>>> OutIt;
     size_t k = t.next_sz();
     GCase<G> c; read_graph(t, c, scale);
-    std::list<std::list<Edge>> cycles;
     auto wm = boost::get(boost::edge_weight, c.g);
-    typename boost::property_traits<decltype(wm)>::value_type ret;
-    try {
-        if (alg == "signed") ret = parmcb::approx_mcb_sva_signed(c.g, wm, k, std::back_inserter(cycles));
-        else if (alg == "fvs") ret = parmcb::approx_mcb_sva_fvs_trees(c.g, wm, k, std::back_inserter(cycles));
-        else if (alg == "iso") ret = parmcb::approx_mcb_sva_iso_trees(c.g, wm, k, std::back_inserter(cycles));
-        else throw std::logic_error("bad alg");
-    } catch (const std::runtime_error &e) {
-        out << "THROW runtime_error EMITTED " << cycles.size(); return;
+    typedef decltype(wm) WMap;
+    {
+        std::list<std::list<Edge>> cycles;
+        typename boost::property_traits<WMap>::value_type ret;
+        bool thrown = false;
+        try {
+            if (alg == "signed") ret = parmcb::approx_mcb_sva_signed(c.g, wm, k, std::back_inserter(cycles));
+            else if (alg == "fvs") ret = parmcb::approx_mcb_sva_fvs_trees(c.g, wm, k, std::back_inserter(cycles));
+            else if (alg == "iso") ret = parmcb::approx_mcb_sva_iso_trees(c.g, wm, k, std::back_inserter(cycles));
+            else throw std::logic_error("bad alg");
+        } catch (const std::runtime_error &e) {
+            out << "THROW runtime_error EMITTED " << cycles.size(); thrown = true;
+        }
+        if (!thrown) {
+            out << "RET " << exact_weight(ret, scale);
+            print_cycles(out, c, cycles);
+        }
     }
-    out << "RET " << exact_weight(ret, scale);
-    print_cycles(out, c, cycles);
+    // the same two statements, on an object whose spanner we can look at
+    if (alg == "signed") run_direct<G, parmcb::detail::mcb_sva_signed<G, WMap, OutIt>>(c, wm, k, scale, out);
+    else if (alg == "fvs") run_direct<G, parmcb::detail::mcb_sva_fvs_trees<G, WMap, OutIt>>(c, wm, k, scale, out);
+    else run_direct<G, parmcb::detail::mcb_sva_fvs_trees<G, WMap, OutIt>>(c, wm, k, scale, out);   // sic: what approx_mcb_sva_iso_trees instantiates
+}
+
+template<class G> void run_dijkstra(Toks &t, std::ostream &out) {
+    typedef typename boost::graph_traits<G>::edge_descriptor Edge;
+    typedef typename boost::graph_traits<G>::vertex_descriptor Vertex;
+    typedef typename boost::property_traits<typename boost::property_map<G, boost::edge_weight_t>::type>::value_type W;
+    size_t s = t.next_sz();
+    GCase<G> c; read_graph(t, c, 0);
+    auto wm = boost::get(boost::edge_weight, c.g);
+    auto index_map = boost::get(boost::vertex_index, c.g);
+    size_t n = boost::num_vertices(c.g);
+    std::vector<W> dist(n, (std::numeric_limits<W>::max)());
+    boost::function_property_map<parmcb::detail::VertexIndexFunctor<G, W>, Vertex, W&> dist_map(
+            parmcb::detail::VertexIndexFunctor<G, W>(dist, index_map));
+    std::vector<std::tuple<bool, Edge>> pred(n, std::make_tuple(false, Edge()));
+    boost::function_property_map<parmcb::detail::VertexIndexFunctor<G, std::tuple<bool, Edge>>, Vertex, std::tuple<bool, Edge>&> pred_map(
+            parmcb::detail::VertexIndexFunctor<G, std::tuple<bool, Edge>>(pred, index_map));
+    parmcb::dijkstra(c.g, wm, s, dist_map, pred_map);
+    out << "DIST";
+    for (size_t v = 0; v < n; v++) { if (dist[v] == (std::numeric_limits<W>::max)()) out << " inf"; else out << " " << exact_weight(dist[v], 0); }
+    out << " PRED";
+    for (size_t v = 0; v < n; v++) { if (!std::get<0>(pred[v])) out << " -"; else out << " " << c.id(std::get<1>(pred[v])); }
 }
 
 int main() {
     return run_cases([](Toks &t, std::ostream &out) {
         std::string kind = t.next();
-        if (kind != "X") throw std::logic_error("bad kind");
-        std::string alg = t.next(), ty = t.next(); int scale = (int) t.next_ll();
-        if (ty == "D") run_alg<DGraph>(alg, t, scale, out); else run_alg<IGraph>(alg, t, 0, out);
+        if (kind == "X") {
+            std::string alg = t.next(), ty = t.next(); int scale = (int) t.next_ll();
+            if (ty == "D") run_alg<DGraph>(alg, t, scale, out); else run_alg<IGraph>(alg, t, 0, out);
+        } else if (kind == "J") {
+            std::string ty = t.next();
+            if (ty == "D") run_dijkstra<DGraph>(t, out); else run_dijkstra<IGraph>(t, out);
+        } else throw std::logic_error("bad kind");
     });
 }
